@@ -383,8 +383,9 @@ def loop_body_open(toks, i):
     raise Undecided('loop body not found')
 
 
-def find_closures(toks):
-    """-> list of (start_tok_of_first_bar, tok_of_closing_bar). heuristic on the preceding token"""
+def find_closures(toks, include_async=False):
+    """-> list of (start_tok_of_first_bar, tok_of_closing_bar). heuristic on the preceding token.
+    `async |..|` closures are only listed with include_async (used by `lift-closure .. as async name(..)`)."""
     res = []
     i = 0
     n = len(toks)
@@ -393,7 +394,7 @@ def find_closures(toks):
         if k == 'p' and t == '|':
             p = nontrivia(toks, i, -1)
             pt = toks[p][1] if p >= 0 else '{'
-            if pt in ('(', ',', '=', '{', ';', 'move', 'return', '=>', '}') :
+            if pt in ('(', ',', '=', '{', ';', 'move', 'return', '=>', '}') or (include_async and pt == 'async'):
                 # closure start
                 j = i + 1
                 if toks[j][1] == '|':
@@ -802,8 +803,11 @@ def render_extract(ex, vac=False, strip_proof=False):
         # R6a: lambda-lift closure k: the item emitted is `fn NAME(PARAMS) -> RET { closure body }` instead of the
         # enclosing function (which is out of reach); captured variables become the extra parameters listed
         kidx, sig = ex.lift
+        lift_is_async = sig.lstrip().startswith('async ')
+        if lift_is_async:
+            sig = sig.lstrip()[len('async '):]
         toks = tokenize(body)
-        cl = find_closures(toks)
+        cl = find_closures(toks, include_async=lift_is_async)
         anchor = getattr(ex, 'lift_anchor', None)
         if anchor:
             # first closure that starts after the (unique) anchor literal
@@ -830,9 +834,9 @@ def render_extract(ex, vac=False, strip_proof=False):
         log.append({'rule': 'R6', 'lifted_closure': kidx, 'of': name, 'closure_header': join(toks[b0:b1 + 1]), 'as': sig})
         m_ = re.match(r'\s*([A-Za-z_][A-Za-z0-9_]*)', sig)
         name = m_.group(1)
-        header = 'fn ' + sig + ('__vac' if False else '')
+        header = ('async fn ' if lift_is_async else 'fn ') + sig + ('__vac' if False else '')
         if vac:
-            header = 'fn ' + sig.replace(name, name + '__vac', 1)
+            header = ('async fn ' if lift_is_async else 'fn ') + sig.replace(name, name + '__vac', 1)
         body = inner
         ex = __import__('copy').copy(ex)
         ex.ret = None
